@@ -421,11 +421,38 @@ Proof.
     apply N.ltb_lt. rewrite szof_app. lia.
 Qed.
 
-Theorem handoff_msg_sound fuel o dc r trace msg sz seen r' :
-  rstate_ok r -> data_loop fuel o dc r trace = (D_eod msg sz seen, r') -> handoff_msg_ok (par_of dc) seen msg = true.
+(** ---------- the property as stated (presence judged on the stored lines) ---------- *)
+Lemma unstuff_nodot l : dot_line l = false -> unstuff l = l.
 Proof.
-  intros Hok H. pose proof (data_loop_spec fuel o dc r trace _ r' Hok H) as S. cbn in S.
-  destruct S as (Hm & _). unfold handoff_msg_ok. rewrite Hm, app_length.
+  unfold dot_line, unstuff. destruct l as [|b t]; [reflexivity|]. cbn [nth]. intros H.
+  destruct b as [|p]; [reflexivity|]. do 6 (destruct p as [p|p|]; try reflexivity). discriminate.
+Qed.
+
+Lemma field_stored_present name hdr : (name = s_hdr_date \/ name = s_hdr_from \/ name = s_hdr_msgid) ->
+  hidden_field hdr = false -> field_stored name hdr = field_present name hdr.
+Proof.
+  intros Hn. unfold hidden_field, field_stored, field_present. induction hdr as [|l t IH]; [reflexivity|].
+  cbn [existsb]. intros H. apply orb_false_iff in H as [Hl Ht]. rewrite (IH Ht). f_equal.
+  unfold hidden_line in Hl. unfold field_line. destruct (dot_line l) eqn:Ed; cbn [negb andb] in *.
+  - apply orb_false_iff in Hl as [Hl H3]. apply orb_false_iff in Hl as [H1 H2].
+    destruct Hn as [->|[->| ->]]; assumption.
+  - now rewrite (unstuff_nodot l Ed).
+Qed.
+
+Lemma queued_full_eq p lines : sp_on p = false \/ hidden_field (hdr_part lines) = false -> queued_full p lines = queued p lines.
+Proof.
+  unfold queued_full, queued. intros [E|E]; [rewrite E; reflexivity|].
+  unfold subm_fields_full, subm_fields.
+  rewrite (field_stored_present s_hdr_date _ (or_introl eq_refl) E), (field_stored_present s_hdr_from _ (or_intror (or_introl eq_refl)) E),
+    (field_stored_present s_hdr_msgid _ (or_intror (or_intror eq_refl)) E). reflexivity.
+Qed.
+
+Theorem handoff_msg_sound fuel o dc r trace msg sz seen r' :
+  rstate_ok r -> data_loop fuel o dc r trace = (D_eod msg sz seen, r') ->
+  d_subm dc = false \/ hidden_field (hdr_part seen) = false -> handoff_msg_ok (par_of dc) seen msg = true.
+Proof.
+  intros Hok H Hcls. pose proof (data_loop_spec fuel o dc r trace _ r' Hok H) as S. cbn in S.
+  destruct S as (Hm & _). unfold handoff_msg_ok. rewrite (queued_full_eq (par_of dc) seen Hcls). rewrite Hm, app_length.
   apply andb_true_intro. split; [apply Nat.leb_le; lia|].
   replace (length trace + length (queued (par_of dc) seen) - length (queued (par_of dc) seen)) with (length trace) by lia.
   rewrite skipn_app, skipn_all, Nat.sub_diag. cbn [skipn app]. apply bytes_eqb_eq. reflexivity.
